@@ -407,6 +407,647 @@ fn run_frame(base: &str, kind: &str, bytes: Vec<u8>, endian: RunTimeEndian, asz:
 }
 
 // ===========================================================================
+// DWARF: units, entries, attributes, line programs
+// ===========================================================================
+type Secs = BTreeMap<String, &'static [u8]>;
+
+fn load_dwarf(secs: &Secs, endian: RunTimeEndian) -> gimli::Dwarf<Rd<'static>> {
+    let load = |id: SectionId| -> Result<Rd<'static>, gimli::Error> {
+        let name = id.name().trim_start_matches('.');
+        Ok(EndianSlice::new(secs.get(name).copied().unwrap_or(&[]), endian))
+    };
+    gimli::Dwarf::load(load).unwrap()
+}
+
+struct UnitDump {
+    hdr: J,
+    entries: Vec<J>,
+    line_hdr: J,
+    seqs: Vec<J>,
+}
+
+fn str_json(r: Result<Rd<'static>, gimli::Error>) -> J {
+    match r {
+        Ok(s) => json!({"k":"string","v":bytes_json(s.slice())}),
+        Err(e) => json!({"k":"string_unresolved","name":err_name(&e)}),
+    }
+}
+fn str_bytes(r: Result<Rd<'static>, gimli::Error>) -> J {
+    match r {
+        Ok(s) => bytes_json(s.slice()),
+        Err(e) => bytes_json(format!("<{}>", err_name(&e)).as_bytes()),
+    }
+}
+
+fn file_json(dwarf: &gimli::Dwarf<Rd<'static>>, unit: &gimli::Unit<Rd<'static>>, header: Option<&gimli::LineProgramHeader<Rd<'static>>>, index: u64) -> J {
+    let none = json!({"found":false,"dir":[],"name":[]});
+    let Some(h) = header else { return none };
+    let Some(f) = h.file(index) else { return none };
+    let name = str_bytes(dwarf.attr_string(unit, f.path_name()));
+    let dir = match f.directory(h) {
+        Some(d) => str_bytes(dwarf.attr_string(unit, d)),
+        None => json!([]),
+    };
+    json!({"found":true,"dir":dir,"name":name})
+}
+
+fn value_json(
+    dwarf: &gimli::Dwarf<Rd<'static>>,
+    unit: &gimli::Unit<Rd<'static>>,
+    ids: &Ids,
+    endian: RunTimeEndian,
+    v: AV<Rd<'static>>,
+) -> J {
+    let uref = unit.unit_ref(dwarf);
+    let cx = RefCtx { ids: Some(ids), unit: Some(uref) };
+    let data = |w: u64, x: u64| json!({"k":"const","cls":"data","w":w,"v":b8(x)});
+    let en = |x: u64| json!({"k":"enum","v":b8(x)});
+    match v {
+        AV::Addr(a) => json!({"k":"addr","v":b8(a)}),
+        AV::DebugAddrIndex(i) => match uref.address(i) {
+            Ok(a) => json!({"k":"addr","v":b8(a),"index":i.0}),
+            Err(e) => json!({"k":"addr_unresolved","name":err_name(&e),"index":i.0}),
+        },
+        AV::Block(r) => json!({"k":"block","v":bytes_json(r.slice())}),
+        AV::Data1(x) => data(1, x as u64),
+        AV::Data2(x) => data(2, x as u64),
+        AV::Data4(x) => data(4, x as u64),
+        AV::Data8(x) => data(8, x),
+        AV::Data16(x) => json!({"k":"const","cls":"data","w":16,"v":bv128(x, 16)}),
+        AV::Sdata(x) => json!({"k":"const","cls":"s","w":0,"v":b8(x as u64)}),
+        AV::Udata(x) => json!({"k":"const","cls":"u","w":0,"v":b8(x)}),
+        AV::Exprloc(e) => json!({"k":"expr","ops":ops_meaning(e.0.slice(), unit.encoding(), endian, &cx)}),
+        AV::Flag(b) => json!({"k":"flag","b":b}),
+        AV::UnitRef(o) => {
+            let mut j = cx.unit_ref(o.0 as u64);
+            j["k"] = json!("ref");
+            j["off"] = json!(o.0);
+            j
+        }
+        AV::DebugInfoRef(o) => {
+            let mut j = cx.info_ref(o.0 as u64);
+            j["k"] = json!("ref");
+            j["off"] = json!(o.0);
+            j
+        }
+        AV::DebugInfoRefSup(o) => json!({"k":"sup","sec":"info","v":b8(o.0 as u64)}),
+        AV::DebugStrRefSup(o) => json!({"k":"sup","sec":"str","v":b8(o.0 as u64)}),
+        AV::DebugLineRef(o) => json!({"k":"lineptr","off":o.0}),
+        AV::DebugMacinfoRef(o) => json!({"k":"secoff","sec":"macinfo","v":b8(o.0 as u64)}),
+        AV::DebugMacroRef(o) => json!({"k":"secoff","sec":"macro","v":b8(o.0 as u64)}),
+        AV::SecOffset(o) => json!({"k":"secoff","sec":"","v":b8(o as u64)}),
+        AV::DebugAddrBase(o) => json!({"k":"base","raw":o.0}),
+        AV::DebugLocListsBase(o) => json!({"k":"base","raw":o.0}),
+        AV::DebugRngListsBase(o) => json!({"k":"base","raw":o.0}),
+        AV::DebugStrOffsetsBase(o) => json!({"k":"base","raw":o.0}),
+        AV::DebugTypesRef(sig) => json!({"k":"sig","v":b8(sig.0)}),
+        AV::DwoId(id) => json!({"k":"const","cls":"u","w":0,"v":b8(id.0)}),
+        AV::LocationListsRef(_) | AV::DebugLocListsIndex(_) => {
+            let mut list = Vec::new();
+            let mut err = String::new();
+            match dwarf.attr_locations(unit, v) {
+                Ok(Some(mut it)) => loop {
+                    match it.next() {
+                        Ok(Some(l)) => list.push(json!({"b":b8(l.range.begin),"e":b8(l.range.end),
+                            "ops":ops_meaning(l.data.0.slice(), unit.encoding(), endian, &cx)})),
+                        Ok(None) => break,
+                        Err(e) => {
+                            err = err_name(&e);
+                            break;
+                        }
+                    }
+                },
+                Ok(None) => err = "none".into(),
+                Err(e) => err = err_name(&e),
+            }
+            json!({"k":"locs","list":list,"err":err})
+        }
+        AV::RangeListsRef(_) | AV::DebugRngListsIndex(_) => {
+            let mut list = Vec::new();
+            let mut err = String::new();
+            match dwarf.attr_ranges(unit, v) {
+                Ok(Some(mut it)) => loop {
+                    match it.next() {
+                        Ok(Some(r)) => list.push(json!({"b":b8(r.begin),"e":b8(r.end)})),
+                        Ok(None) => break,
+                        Err(e) => {
+                            err = err_name(&e);
+                            break;
+                        }
+                    }
+                },
+                Ok(None) => err = "none".into(),
+                Err(e) => err = err_name(&e),
+            }
+            json!({"k":"ranges","list":list,"err":err})
+        }
+        AV::DebugStrRef(_) | AV::DebugStrOffsetsIndex(_) | AV::DebugLineStrRef(_) | AV::String(_) => {
+            str_json(dwarf.attr_string(unit, v))
+        }
+        AV::Encoding(x) => en(x.0 as u64),
+        AV::DecimalSign(x) => en(x.0 as u64),
+        AV::Endianity(x) => en(x.0 as u64),
+        AV::Accessibility(x) => en(x.0 as u64),
+        AV::Visibility(x) => en(x.0 as u64),
+        AV::Virtuality(x) => en(x.0 as u64),
+        AV::Language(x) => en(x.0 as u64),
+        AV::AddressClass(x) => en(x.0),
+        AV::IdentifierCase(x) => en(x.0 as u64),
+        AV::CallingConvention(x) => en(x.0 as u64),
+        AV::Inline(x) => en(x.0 as u64),
+        AV::Ordering(x) => en(x.0 as u64),
+        AV::FileIndex(i) => {
+            let mut j = file_json(dwarf, unit, unit.line_program.as_ref().map(|p| p.header()), i);
+            j["k"] = json!("file");
+            j["index"] = json!(b8(i));
+            j
+        }
+    }
+}
+
+fn row_json(dwarf: &gimli::Dwarf<Rd<'static>>, unit: Option<&gimli::Unit<Rd<'static>>>, h: &gimli::LineProgramHeader<Rd<'static>>, r: &gimli::LineRow) -> J {
+    let file = match unit {
+        Some(u) => file_json(dwarf, u, Some(h), r.file_index()),
+        None => match h.file(r.file_index()) {
+            Some(f) => json!({"found":true,
+                "dir": f.directory(h).map(|d| str_bytes(dwarf.attr_line_string(d))).unwrap_or(json!([])),
+                "name": str_bytes(dwarf.attr_line_string(f.path_name()))}),
+            None => json!({"found":false,"dir":[],"name":[]}),
+        },
+    };
+    json!({"addr":b8(r.address()),"op_index":b8(r.op_index()),"file_index":b8(r.file_index()),"file":file,
+           "line":b8(r.line().map(|l| l.get()).unwrap_or(0)),
+           "col":b8(match r.column() { gimli::ColumnType::LeftEdge => 0, gimli::ColumnType::Column(c) => c.get() }),
+           "is_stmt":r.is_stmt(),"bb":r.basic_block(),"end":r.end_sequence(),"pe":r.prologue_end(),
+           "eb":r.epilogue_begin(),"isa":b8(r.isa()),"disc":b8(r.discriminator())})
+}
+
+/// (header dump, sequences): a sequence is {"present":true,"rows":[..],"err":""}
+fn line_dump(dwarf: &gimli::Dwarf<Rd<'static>>, unit: Option<&gimli::Unit<Rd<'static>>>, program: &gimli::IncompleteLineProgram<Rd<'static>>) -> (J, Vec<J>) {
+    let h = program.header();
+    let s = |a: AV<Rd<'static>>| match unit {
+        Some(u) => str_bytes(dwarf.attr_string(u, a)),
+        None => str_bytes(dwarf.attr_line_string(a)),
+    };
+    let dirs: Vec<J> = h.include_directories().iter().map(|d| s(d.clone())).collect();
+    let files: Vec<J> = h
+        .file_names()
+        .iter()
+        .map(|f| {
+            json!({"dir": f.directory(h).map(|d| s(d)).unwrap_or(json!([])), "name": s(f.path_name()),
+                   "ts": b8(f.timestamp()), "size": b8(f.size()), "md5": bytes_json(f.md5()),
+                   "src": f.source().map(|x| s(x)).unwrap_or(json!([]))})
+        })
+        .collect();
+    let hdr = json!({"present":true,"dirs":dirs,"files":files,"ver":h.version(),
+                     "mil":h.minimum_instruction_length(),"maxops":h.maximum_operations_per_instruction(),
+                     "lbase":h.line_base(),"lrange":h.line_range()});
+    let mut seqs = Vec::new();
+    let mut cur: Vec<J> = Vec::new();
+    let mut rows = program.clone().rows();
+    loop {
+        match rows.next_row() {
+            Ok(Some((hh, r))) => {
+                cur.push(row_json(dwarf, unit, hh, r));
+                if r.end_sequence() {
+                    seqs.push(json!({"present":true,"rows":std::mem::take(&mut cur),"err":""}));
+                }
+            }
+            Ok(None) => {
+                if !cur.is_empty() {
+                    seqs.push(json!({"present":true,"rows":std::mem::take(&mut cur),"err":"unterminated"}));
+                }
+                break;
+            }
+            Err(e) => {
+                seqs.push(json!({"present":true,"rows":std::mem::take(&mut cur),"err":err_name(&e)}));
+                break;
+            }
+        }
+    }
+    (hdr, seqs)
+}
+
+fn absent_unit() -> J {
+    json!({"present":false,"ver":0,"fmt":0,"asz":0,"utype":"","nentries":0})
+}
+fn absent_entry() -> J {
+    json!({"present":false,"depth":-1,"tag":0,"attrs":[]})
+}
+fn absent_line_hdr() -> J {
+    json!({"present":false,"dirs":[],"files":[],"ver":0,"mil":0,"maxops":0,"lbase":0,"lrange":0})
+}
+fn absent_seq() -> J {
+    json!({"present":false,"rows":[],"err":""})
+}
+
+fn dwarf_dump(dwarf: &gimli::Dwarf<Rd<'static>>, endian: RunTimeEndian) -> Result<Vec<UnitDump>, String> {
+    // pass 1: the entries of every unit and their identity.  Identity = (unit index,
+    // index in CANONICAL preorder): preorder in which the root's children of tag
+    // DW_TAG_base_type come first (stable), the order the writer emits them in
+    // (write::Unit::reorder_base_types); see Convert.tla section 1.
+    let mut ids: Ids = HashMap::new();
+    let mut units = Vec::new();
+    let mut it = dwarf.units();
+    loop {
+        match it.next() {
+            Ok(Some(h)) => units.push(dwarf.unit(h).map_err(|e| format!("unit:{}", err_name(&e)))?),
+            Ok(None) => break,
+            Err(e) => return Err(format!("units:{}", err_name(&e))),
+        }
+    }
+    let mut orders: Vec<Vec<gimli::DebuggingInformationEntry<Rd<'static>>>> = Vec::new();
+    for (ui, unit) in units.iter().enumerate() {
+        let mut raw = unit.entries_raw(None).map_err(|e| format!("entries:{}", err_name(&e)))?;
+        let mut all = Vec::new();
+        while !raw.is_empty() {
+            let mut e = gimli::DebuggingInformationEntry::null();
+            match raw.read_entry(&mut e) {
+                Ok(true) => all.push(e),
+                Ok(false) => {}
+                Err(err) => return Err(format!("entry:{}", err_name(&err))),
+            }
+        }
+        // subtrees of the root's children: [start, end) index ranges at depth 1
+        let mut canon: Vec<gimli::DebuggingInformationEntry<Rd<'static>>> = Vec::new();
+        if !all.is_empty() {
+            let mut groups: Vec<(usize, usize)> = Vec::new();
+            let mut i = 1;
+            while i < all.len() {
+                let mut j = i + 1;
+                while j < all.len() && all[j].depth() > all[i].depth() && all[i].depth() == 1 {
+                    j += 1;
+                }
+                groups.push((i, j));
+                i = j;
+            }
+            canon.push(all[0].clone());
+            for pass in 0..2 {
+                for (a, b) in &groups {
+                    let is_base = all[*a].tag() == c::DW_TAG_base_type && all[*a].depth() == 1;
+                    if (pass == 0) == is_base {
+                        canon.extend(all[*a..*b].iter().cloned());
+                    }
+                }
+            }
+        }
+        for (idx, e) in canon.iter().enumerate() {
+            ids.insert(e.offset().to_unit_section_offset(unit).0, (ui, idx));
+        }
+        orders.push(canon);
+    }
+    // pass 2
+    let mut out = Vec::new();
+    for (unit, canon) in units.iter().zip(orders.iter()) {
+        let mut entries = Vec::new();
+        for e in canon {
+            let attrs: Vec<J> = e
+                .attrs()
+                .iter()
+                .map(|a| json!({"name":a.name().0,"form":a.form().0,"v":value_json(dwarf, unit, &ids, endian, a.value())}))
+                .collect();
+            entries.push(json!({"present":true,"depth":e.depth(),"tag":e.tag().0,"attrs":attrs}));
+        }
+        let h = &unit.header;
+        let utype = match h.type_() {
+            gimli::UnitType::Compilation => "compile",
+            gimli::UnitType::Type { .. } => "type",
+            gimli::UnitType::Partial => "partial",
+            gimli::UnitType::Skeleton(_) => "skeleton",
+            gimli::UnitType::SplitCompilation(_) => "split_compile",
+            gimli::UnitType::SplitType { .. } => "split_type",
+        };
+        let hdr = json!({"present":true,"ver":h.version(),"fmt":if h.format() == Format::Dwarf64 {8} else {4},
+                         "asz":h.address_size(),"utype":utype,"nentries":entries.len()});
+        let (line_hdr, seqs) = match &unit.line_program {
+            Some(p) => line_dump(dwarf, Some(unit), p),
+            None => (absent_line_hdr(), Vec::new()),
+        };
+        out.push(UnitDump { hdr, entries, line_hdr, seqs });
+    }
+    Ok(out)
+}
+
+fn sections_of(sections: &write::Sections<EndianVec<RunTimeEndian>>) -> Secs {
+    let mut m = Secs::new();
+    for id in [
+        SectionId::DebugAbbrev, SectionId::DebugInfo, SectionId::DebugLine, SectionId::DebugLineStr, SectionId::DebugRanges,
+        SectionId::DebugRngLists, SectionId::DebugLoc, SectionId::DebugLocLists, SectionId::DebugStr,
+    ] {
+        if let Some(w) = sections.get(id) {
+            m.insert(id.name().trim_start_matches('.').to_string(), leak(w.slice().to_vec()));
+        }
+    }
+    m
+}
+
+fn ca(a: u64) -> Option<Address> {
+    Some(Address::Constant(a))
+}
+
+/// The stepwise convert API used the way its documentation shows; `seed` chooses
+/// between read_row and read_sequence for each line program.
+fn convert_stepwise(from: &gimli::Dwarf<Rd<'static>>, seed: u64) -> Result<write::Dwarf, write::ConvertError> {
+    let mut rng = Rng::new(seed);
+    let mut dwarf = write::Dwarf::new();
+    {
+        let mut convert = dwarf.convert(from)?;
+        while let Some((mut unit, root_entry)) = convert.read_unit()? {
+            let by_sequence = rng.chance(1, 2);
+            let lp = {
+                match unit.read_line_program(None, None)? {
+                    None => None,
+                    Some(mut cp) => {
+                        if by_sequence {
+                            while let Some(sequence) = cp.read_sequence()? {
+                                if let Some(start) = sequence.start {
+                                    cp.set_address(Address::Constant(start));
+                                }
+                                for row in sequence.rows {
+                                    cp.generate_row(row);
+                                }
+                                if let write::ConvertLineSequenceEnd::Length(length) = sequence.end {
+                                    cp.end_sequence(length);
+                                }
+                            }
+                        } else {
+                            while let Some(row) = cp.read_row()? {
+                                match row {
+                                    write::ConvertLineRow::SetAddress(a) => cp.set_address(Address::Constant(a)),
+                                    write::ConvertLineRow::Row(r) => cp.generate_row(r),
+                                    write::ConvertLineRow::EndSequence(l) => cp.end_sequence(l),
+                                }
+                            }
+                        }
+                        if cp.in_sequence() {
+                            return Err(write::ConvertError::MissingLineEndSequence);
+                        }
+                        Some(cp.program())
+                    }
+                }
+            };
+            if let Some((program, files)) = lp {
+                unit.set_line_program(program, files);
+            }
+            let root_id = unit.unit.root();
+            for attr in &root_entry.attrs {
+                if attr.name() == c::DW_AT_GNU_locviews {
+                    continue;
+                }
+                let value = unit.convert_attribute_value(root_entry.read_unit, attr, &ca)?;
+                unit.unit.get_mut(root_id).set(attr.name(), value);
+            }
+            let mut entry = root_entry;
+            while let Some(id) = unit.read_entry(&mut entry)? {
+                if id.is_none() {
+                    continue;
+                }
+                let id = unit.add_entry(id, &entry);
+                for attr in &entry.attrs {
+                    if attr.name() == c::DW_AT_GNU_locviews {
+                        continue;
+                    }
+                    let value = unit.convert_attribute_value(entry.read_unit, attr, &ca)?;
+                    unit.unit.get_mut(id).set(attr.name(), value);
+                }
+            }
+        }
+    }
+    Ok(dwarf)
+}
+
+fn convert_write(from: &gimli::Dwarf<Rd<'static>>, api: &str, seed: u64, endian: RunTimeEndian) -> Result<Secs, (String, String)> {
+    let mut w = if api == "stepwise" {
+        convert_stepwise(from, seed)
+    } else {
+        write::Dwarf::from(from, &ca)
+    }
+    .map_err(|e| ("convert".to_string(), format!("{:?}", e)))?;
+    let mut sections = write::Sections::new(EndianVec::new(endian));
+    w.write(&mut sections).map_err(|e| ("write".to_string(), format!("{:?}", e)))?;
+    Ok(sections_of(&sections))
+}
+
+fn again_ok() -> J {
+    json!({"ok":true,"stage":"","err":""})
+}
+
+/// Convert a whole DWARF object; events per unit / entry / line header / line sequence.
+fn run_dwarf(base: &str, api: &str, secs: Secs, endian: RunTimeEndian, seed: u64, sample: &dyn Fn(usize, usize) -> bool, evs: &mut Vec<J>) {
+    let tag = || json!({"what":"dwarf","base":base,"api":api});
+    let input = load_dwarf(&secs, endian);
+    let min = match dwarf_dump(&input, endian) {
+        Ok(m) => m,
+        Err(e) => {
+            evs.push(json!({"ev":"InputRejected","what":"dwarf","base":base,"err":e}));
+            return;
+        }
+    };
+    let s1 = match convert_write(&input, api, seed, endian) {
+        Ok(s) => s,
+        Err((stage, err)) => {
+            evs.push(json!({"ev":"ConvertFailed","what":"dwarf","base":base,"api":api,"out":"","stage":stage,"err":err}));
+            return;
+        }
+    };
+    let d1 = load_dwarf(&s1, endian);
+    let mout = match dwarf_dump(&d1, endian) {
+        Ok(m) => m,
+        Err(e) => {
+            evs.push(json!({"ev":"Abnormal","what":"dwarf","base":base,"api":api,"why":"output unreadable","err":e}));
+            return;
+        }
+    };
+    let (mout2, again): (Vec<UnitDump>, J) = match convert_write(&d1, api, seed, endian) {
+        Err((stage, err)) => (Vec::new(), json!({"ok":false,"stage":stage,"err":err})),
+        Ok(s2) => match dwarf_dump(&load_dwarf(&s2, endian), endian) {
+            Ok(m) => (m, again_ok()),
+            Err(e) => (Vec::new(), json!({"ok":false,"stage":"read","err":e})),
+        },
+    };
+    let ok2 = again["ok"] == true;
+    let pick3 = |a: Option<&J>, b: Option<&J>, c: Option<&J>, absent: &dyn Fn() -> J| -> (J, J, J) {
+        let m1 = b.cloned().unwrap_or_else(absent);
+        let m2 = if ok2 { c.cloned().unwrap_or_else(absent) } else { m1.clone() };
+        (a.cloned().unwrap_or_else(absent), m1, m2)
+    };
+    let nu = min.len().max(mout.len()).max(mout2.len());
+    let total_entries: usize = min.iter().map(|u| u.entries.len()).sum();
+    let total_seqs: usize = min.iter().map(|u| u.seqs.len()).sum();
+    let mut ecount = 0usize;
+    let mut scount = 0usize;
+    for ui in 0..nu {
+        let (a, b, c3) = (min.get(ui), mout.get(ui), mout2.get(ui));
+        let mut ev = tag();
+        ev["ev"] = json!("ConvUnit");
+        ev["unit"] = json!(ui);
+        ev["again"] = again.clone();
+        let (x, y, z) = pick3(a.map(|u| &u.hdr), b.map(|u| &u.hdr), c3.map(|u| &u.hdr), &absent_unit);
+        ev["min"] = x;
+        ev["mout"] = y;
+        ev["mout2"] = z;
+        evs.push(ev);
+        let ne = [a, b, c3].iter().map(|u| u.map(|u| u.entries.len()).unwrap_or(0)).max().unwrap_or(0);
+        for ei in 0..ne {
+            let common = [a, b].iter().map(|u| u.map(|u| u.entries.len()).unwrap_or(0)).min().unwrap_or(0);
+            ecount += 1;
+            if !(sample(ecount, total_entries.max(1)) || ei >= common || ei == 0) {
+                continue;
+            }
+            let mut ev = tag();
+            ev["ev"] = json!("ConvEntry");
+            ev["unit"] = json!(ui);
+            ev["idx"] = json!(ei);
+            ev["again"] = again.clone();
+            let (x, y, z) = pick3(a.and_then(|u| u.entries.get(ei)), b.and_then(|u| u.entries.get(ei)), c3.and_then(|u| u.entries.get(ei)), &absent_entry);
+            ev["min"] = x;
+            ev["mout"] = y;
+            ev["mout2"] = z;
+            evs.push(ev);
+        }
+        let mut ev = tag();
+        ev["ev"] = json!("ConvLineHeader");
+        ev["unit"] = json!(ui);
+        ev["again"] = again.clone();
+        let (x, y, z) = pick3(a.map(|u| &u.line_hdr), b.map(|u| &u.line_hdr), c3.map(|u| &u.line_hdr), &absent_line_hdr);
+        ev["min"] = x;
+        ev["mout"] = y;
+        ev["mout2"] = z;
+        evs.push(ev);
+        let ns = [a, b, c3].iter().map(|u| u.map(|u| u.seqs.len()).unwrap_or(0)).max().unwrap_or(0);
+        for si in 0..ns {
+            let common = [a, b].iter().map(|u| u.map(|u| u.seqs.len()).unwrap_or(0)).min().unwrap_or(0);
+            scount += 1;
+            if !(sample(scount, total_seqs.max(1)) || si >= common) {
+                continue;
+            }
+            let mut ev = tag();
+            ev["ev"] = json!("ConvLineSeq");
+            ev["unit"] = json!(ui);
+            ev["seq"] = json!(si);
+            ev["again"] = again.clone();
+            let (x, y, z) = pick3(a.and_then(|u| u.seqs.get(si)), b.and_then(|u| u.seqs.get(si)), c3.and_then(|u| u.seqs.get(si)), &absent_seq);
+            ev["min"] = x;
+            ev["mout"] = y;
+            ev["mout2"] = z;
+            evs.push(ev);
+        }
+    }
+    let mut ev = tag();
+    ev["ev"] = json!("ConvDone");
+    ev["part"] = json!("units");
+    ev["nin"] = json!(min.len());
+    ev["nout"] = json!(mout.len());
+    ev["nout2"] = json!(if ok2 { mout2.len() } else { mout.len() });
+    ev["again"] = again;
+    evs.push(ev);
+}
+
+/// A stand-alone line program (no unit): `Dwarf::read_line_program`.
+fn run_line(base: &str, secs: Secs, endian: RunTimeEndian, asz: u8, by_sequence: bool, evs: &mut Vec<J>) {
+    let api = if by_sequence { "read_sequence" } else { "read_row" };
+    let tag = || json!({"what":"line","base":base,"api":api});
+    let dump = |secs: &Secs| -> Result<(J, Vec<J>, gimli::Dwarf<Rd<'static>>, gimli::IncompleteLineProgram<Rd<'static>>), String> {
+        let d = load_dwarf(secs, endian);
+        let p = d
+            .debug_line
+            .program(gimli::DebugLineOffset(0), asz, None, None)
+            .map_err(|e| format!("header:{}", err_name(&e)))?;
+        let (h, s) = line_dump(&d, None, &p);
+        Ok((h, s, d, p))
+    };
+    let conv = |d: &'static gimli::Dwarf<Rd<'static>>, p: gimli::IncompleteLineProgram<Rd<'static>>| -> Result<Secs, (String, String)> {
+        let mut w = write::Dwarf::new();
+        let program = {
+            let mut cp = w.read_line_program(d, p, None, None).map_err(|e| ("convert".to_string(), format!("{:?}", e)))?;
+            let r: Result<(), write::ConvertError> = (|| {
+                if by_sequence {
+                    while let Some(sequence) = cp.read_sequence()? {
+                        if let Some(start) = sequence.start {
+                            cp.set_address(Address::Constant(start));
+                        }
+                        for row in sequence.rows {
+                            cp.generate_row(row);
+                        }
+                        if let write::ConvertLineSequenceEnd::Length(length) = sequence.end {
+                            cp.end_sequence(length);
+                        }
+                    }
+                } else {
+                    while let Some(row) = cp.read_row()? {
+                        match row {
+                            write::ConvertLineRow::SetAddress(a) => cp.set_address(Address::Constant(a)),
+                            write::ConvertLineRow::Row(r) => cp.generate_row(r),
+                            write::ConvertLineRow::EndSequence(l) => cp.end_sequence(l),
+                        }
+                    }
+                }
+                if cp.in_sequence() {
+                    return Err(write::ConvertError::MissingLineEndSequence);
+                }
+                Ok(())
+            })();
+            r.map_err(|e| ("convert".to_string(), format!("{:?}", e)))?;
+            cp.program().0
+        };
+        w.line_programs.push(program);
+        let mut sections = write::Sections::new(EndianVec::new(endian));
+        w.write(&mut sections).map_err(|e| ("write".to_string(), format!("{:?}", e)))?;
+        Ok(sections_of(&sections))
+    };
+    let (h0, s0, d0, p0) = match dump(&secs) {
+        Ok(x) => x,
+        Err(e) => {
+            evs.push(json!({"ev":"InputRejected","what":"line","base":base,"err":e}));
+            return;
+        }
+    };
+    let d0: &'static gimli::Dwarf<Rd<'static>> = Box::leak(Box::new(d0));
+    let s1 = match conv(d0, p0) {
+        Ok(s) => s,
+        Err((stage, err)) => {
+            evs.push(json!({"ev":"ConvertFailed","what":"line","base":base,"api":api,"out":"","stage":stage,"err":err}));
+            return;
+        }
+    };
+    let (h1, q1, d1, p1) = match dump(&s1) {
+        Ok(x) => x,
+        Err(e) => {
+            evs.push(json!({"ev":"Abnormal","what":"line","base":base,"api":api,"why":"output unreadable","err":e}));
+            return;
+        }
+    };
+    let d1: &'static gimli::Dwarf<Rd<'static>> = Box::leak(Box::new(d1));
+    let (h2, q2, again) = match conv(d1, p1) {
+        Err((stage, err)) => (h1.clone(), q1.clone(), json!({"ok":false,"stage":stage,"err":err})),
+        Ok(s2) => match dump(&s2) {
+            Ok((h, q, _, _)) => (h, q, again_ok()),
+            Err(e) => (h1.clone(), q1.clone(), json!({"ok":false,"stage":"read","err":e})),
+        },
+    };
+    let mut ev = tag();
+    ev["ev"] = json!("ConvLineHeader");
+    ev["unit"] = json!(0);
+    ev["again"] = again.clone();
+    ev["min"] = h0;
+    ev["mout"] = h1;
+    ev["mout2"] = h2;
+    evs.push(ev);
+    let n = s0.len().max(q1.len()).max(q2.len());
+    for i in 0..n {
+        let mut ev = tag();
+        ev["ev"] = json!("ConvLineSeq");
+        ev["unit"] = json!(0);
+        ev["seq"] = json!(i);
+        ev["again"] = again.clone();
+        ev["min"] = s0.get(i).cloned().unwrap_or_else(absent_seq);
+        ev["mout"] = q1.get(i).cloned().unwrap_or_else(absent_seq);
+        ev["mout2"] = q2.get(i).cloned().unwrap_or_else(absent_seq);
+        evs.push(ev);
+    }
+}
+
+// ===========================================================================
 // inputs
 // ===========================================================================
 fn read_file(p: &str) -> Option<Vec<u8>> {
@@ -481,6 +1122,47 @@ fn replay(case: &J) -> J {
                     None => evs.push(json!({"ev":"NoInput","what":"frame","base":base,"sec":kind})),
                 }
             }
+        }
+        "dwarf" => {
+            let api = case["api"].as_str().unwrap_or("from");
+            let le = case["le"].as_bool().unwrap_or(true);
+            let endian = if le { RunTimeEndian::Little } else { RunTimeEndian::Big };
+            let mut secs = Secs::new();
+            if base == "raw" {
+                if let Some(m) = case["sections"].as_object() {
+                    for (k, v) in m {
+                        secs.insert(k.clone(), leak(bytes_of(v)));
+                    }
+                }
+            } else if let Some(dir) = base_dir(base) {
+                if let Ok(rd) = std::fs::read_dir(&dir) {
+                    for f in rd.flatten() {
+                        let name = f.file_name().to_string_lossy().to_string();
+                        if name.starts_with("debug_") && !name.ends_with(".dwo") {
+                            if let Some(b) = read_file(&format!("{}/{}", dir, name)) {
+                                secs.insert(name, leak(b));
+                            }
+                        }
+                    }
+                }
+            }
+            if secs.is_empty() {
+                evs.push(json!({"ev":"NoInput","what":what,"base":base}));
+            } else {
+                run_dwarf(base, api, secs, endian, seed, &sample, &mut evs);
+            }
+        }
+        "line" => {
+            let le = case["le"].as_bool().unwrap_or(true);
+            let endian = if le { RunTimeEndian::Little } else { RunTimeEndian::Big };
+            let asz = case["asz"].as_u64().unwrap_or(8) as u8;
+            let mut secs = Secs::new();
+            if let Some(m) = case["sections"].as_object() {
+                for (k, v) in m {
+                    secs.insert(k.clone(), leak(bytes_of(v)));
+                }
+            }
+            run_line(base, secs, endian, asz, case["api"].as_str() == Some("read_sequence"), &mut evs);
         }
         _ => evs.push(json!({"ev":"NoInput","what":what,"base":base})),
     }
